@@ -37,6 +37,10 @@ def case(ctx, i, rec):
     method = str(rng.choice(common.METHODS))
     if method != "variational_gamma" and not common.discrete_ok(ts):
         method = "variational_gamma"
+    if i % 3 == 2:
+        # node ids that do not follow age order (subset / hand-built tables / split nodes)
+        ts, _newid = zoo.renumber(ts, rng)
+        r["renumbered"] = True
     set_md = [None, True][int(rng.integers(2))]
     kw = {"mutation_rate": common.default_mu(ts, r), "set_metadata": set_md, "return_fit": True}
     unphased = False
@@ -63,6 +67,8 @@ def case(ctx, i, rec):
     out, fit = res
     rec.nontrivial = True
     rec.count(f"returned:{method}")
+    if r.get("renumbered"):
+        rec.count(f"renumbered:{method}")
     try:
         nmn, nvr = common.node_mn_vr(out)
         mmn, mvr = common.mut_mn_vr(out)
@@ -145,5 +151,5 @@ def case(ctx, i, rec):
 
 def reach(ctx, agg):
     need = {"returned:variational_gamma": 30, "returned:inside_outside": 10, "returned:maximization": 10,
-            "vg_mutation_nan_rows": 1, "vg_switched_singletons": 1, "io_rows": 50}
+            "vg_mutation_nan_rows": 1, "renumbered:inside_outside": 3, "vg_switched_singletons": 1, "io_rows": 50}
     return [f"{k} = {agg.cnt.get(k, 0)} < {v}" for k, v in need.items() if agg.cnt.get(k, 0) < v]
